@@ -106,10 +106,10 @@ Sat(s) == LET w == Witness(s) IN IsSome(w) /\ Conforms(s, Get(w))
 (***************************************************************************)
 (* Replacement sets                                                        *)
 (***************************************************************************)
-Unrelated == { VNone, VBool(TRUE), VInt(0), VInt(7), VFloat(0), VStr(<<>>), VStr(<<122>>),
+Unrelated == { VNone, VBool(TRUE), VBool(FALSE), VInt(0), VInt(7), VFloat(0), VFloat(100), VStr(<<>>), VStr(<<122>>),
                VBytes(<<>>), VList(<<>>), VDict(<<>>), VUuid(4, 0), VDatetime(0), VDate(0) }
 
-Zoo == { VInf, VNegInf, VNan, VFloat(200000), VInt(2000), VInt(-2000), VInt(3000), VUuid(1, 0),
+Zoo == { VInf, VNegInf, VNan, VFloat(200000), VInt(2000), VInt(-2000), VInt(3000), VUuid(1, 0), VUuid(0, 0),
          VObj("tuple0", <<>>, NoneOpt), VObj("tuple12", <<>>, NoneOpt), VObj("set1", <<>>, NoneOpt),
          VObj("frozenset1", <<>>, NoneOpt), VObj("bytearray_ab", <<>>, NoneOpt),
          VObj("Decimal1", <<>>, NoneOpt), VObj("Fraction12", <<>>, NoneOpt),
@@ -123,7 +123,7 @@ Zoo == { VInf, VNegInf, VNan, VFloat(200000), VInt(2000), VInt(-2000), VInt(3000
          VObj("OrderedDict", <<"dict">>, Some(VDict(<<KV(VStr(<<97>>), VInt(1))>>))) }
 
 \* hashable members usable as extra dict keys
-ZooKeys == { VObj("tuple12", <<>>, NoneOpt), VObj("frozenset1", <<>>, NoneOpt), VInt(2000), VNone,
+ZooKeys == { VNan, VObj("tuple12", <<>>, NoneOpt), VObj("frozenset1", <<>>, NoneOpt), VInt(2000), VNone,
              VObj("object_a", <<>>, NoneOpt), VBool(TRUE), VFloat(50), VBytes(<<97>>) }
 
 (***************************************************************************)
@@ -152,9 +152,18 @@ Local(v) ==
     [] v.k = "date" -> {VDate(v.d + 1), VDatetime(v.d)}
     [] OTHER -> {}
 
+\* the same content inside an instance of a subclass of the container type (a defaultdict
+\* answers lookups of absent keys with a default instead of KeyError)
+Subclassed(v) ==
+  IF v.k = "list" THEN {VObj("MyList", <<"list">>, Some(v))}
+  ELSE IF v.k = "dict"
+  THEN {VObj("DefaultDict", <<"dict">>, Some(v))} \cup
+       {VObj("DefaultDict", <<"dict">>, Some(VDict(RemoveAt(v.pairs, i)))) : i \in DOMAIN v.pairs}
+  ELSE {}
+
 RECURSIVE Mutants(_, _, _)
 Mutants(v, R, K) ==
-  R \cup Local(v) \cup
+  R \cup Local(v) \cup Subclassed(v) \cup
   (IF v.k = "list" THEN
      LET it == v.items IN
      {VList(RemoveAt(it, i)) : i \in DOMAIN it}
@@ -167,6 +176,8 @@ Mutants(v, R, K) ==
      {VDict(RemoveAt(ps, i)) : i \in DOMAIN ps}
      \cup {VDict(Append(ps, KV(x, VNone))) : x \in {y \in K : ~DictHas(ps, y)}}
      \* two extra keys at once (of different kinds when K mixes kinds)
+     \* two keys that are not equal to each other although they print the same (nan != nan)
+     \cup (IF VNan \in K THEN {VDict(ps \o <<KV(VNan, VNone), KV(VNan, VNone)>>)} ELSE {})
      \cup {VDict(ps \o <<KV(xy[1], VNone), KV(xy[2], VNone)>>) :
               xy \in {p \in K \X K : p[1] # p[2] /\ ~VEq(p[1], p[2]) /\ ~DictHas(ps, p[1]) /\ ~DictHas(ps, p[2])}}
      \cup UNION {{VDict([ps EXCEPT ![i] = KV(ps[i].key, m)]) : m \in Mutants(ps[i].val, R, K)} : i \in DOMAIN ps}
